@@ -142,6 +142,12 @@ func unmarshalSecp256k1(jwk *jsonWebKey) (*JWK, error) {
 	x := jwk.X.bigInt()
 	y := jwk.Y.bigInt()
 
+	// coordinates are field elements: btcec reduces its arguments modulo the field prime, so
+	// without this check x+p (or y+p) would be accepted as another spelling of the same point
+	if x.Cmp(curve.Params().P) >= 0 || y.Cmp(curve.Params().P) >= 0 {
+		return nil, ErrInvalidKey
+	}
+
 	if !curve.IsOnCurve(x, y) {
 		return nil, ErrInvalidKey
 	}
